@@ -108,7 +108,8 @@ def history(dc, sc, res, rng, label):
                 # ordinary one, KeyboardInterrupt, SystemExit, or GeneratorExit thrown into a generator suspended inside
                 # the block; a block that is left by an exception changes nothing
                 how = gen.pick(rng, ['commit', 'RuntimeError', 'KeyboardInterrupt', 'SystemExit', 'GeneratorExit'])
-                muts = [(gen.pick(rng, ['set', 'set', 'del']), gen.pick(rng, keys), val()) for _ in range(rng.randrange(1, 4))]
+                muts = [(gen.pick(rng, ['set', 'set', 'del', 'pop', 'popitem', 'popfirst']), gen.pick(rng, keys), val())
+                        for _ in range(rng.randrange(1, 5))]
                 args = (how, muts)
                 saved = collections.OrderedDict(R)
 
@@ -116,6 +117,11 @@ def history(dc, sc, res, rng, label):
                     for what, kk, vv in muts:
                         if what == 'set':
                             M[kk] = vv
+                        elif what == 'pop':
+                            M.pop(kk, None)
+                        elif what in ('popitem', 'popfirst'):
+                            if len(M):
+                                M.popitem(last=what == 'popitem')
                         elif kk in M:
                             del M[kk]
 
